@@ -80,6 +80,16 @@ def rich_doc(draw):
         # ... and two component enums that share a title (the class is named after the title): both are built in the same phase
         ir["schemas"].append(["ZzStateA", {"k": "enum", "base": "str", "values": list(vals), "null": False, "title": "Zz Shared State"}])
         ir["schemas"].append(["ZzStateB", {"k": "enum", "base": "str", "values": list(reversed(vals)), "null": False, "title": "Zz Shared State"}])
+    # two children of one parent, one of which declares a near-duplicate of an inherited property name (the generator renames to keep
+    # both) while the other only promotes the inherited property: what the first does to the shared parent must not show in the second
+    if draw(st.integers(0, 3)) == 0 and "ZzParent" not in comps:
+        ir["schemas"].append(["ZzParent", {"k": "object", "props": [["fooBar", {"k": "str"}, False], ["plainOne", {"k": "int"}, False]], "addl": None, "allOf": []}])
+        kids = [["ZzKidRenames", {"k": "object", "props": [["foo_bar", {"k": "int"}, False]], "addl": None, "allOf": [{"k": "ref", "name": "ZzParent"}]}],
+                ["ZzKidPromotes", {"k": "object", "props": [["ownText", {"k": "str"}, False]], "addl": None, "allOf": [{"k": "ref", "name": "ZzParent"}],
+                                   "extra_required": ["fooBar"]}]]
+        if draw(st.booleans()):
+            kids.reverse()
+        ir["schemas"] += kids
     # names of which nothing is left after sanitising ("$", "@", "-"): whatever the generator puts in their place must not depend on
     # the process (one such name per scope: merging of several is C09's subject)
     if draw(st.integers(0, 2)) == 0:
@@ -270,9 +280,12 @@ def _run_perm(case, ctx):
             if snap != snap0:
                 df = sut.diff_snap(snap0, snap)
                 kinds = sorted({_fkind(k) for k in df["only_a"] + df["only_b"] + df["differ"]})
+                changed = df["only_a"] + df["only_b"] + df["differ"]
+                family = all(os.path.basename(k_) in ("zz_kid_promotes.py", "zz_kid_renames.py", "zz_parent.py") for k_ in changed)
                 ctx.violation("order.identical_tree", {"what": what, "files": kinds[:2], "hooks": hooks,
                                                        "set_changed": bool(df["only_a"] or df["only_b"]),
-                                                       "diff": _diff_class(snap0, snap, df)},
+                                                       "diff": _diff_class(snap0, snap, df),
+                                                       **({"only_children_of_parent_with_renamed_property": True} if family else {})},
                               f"perm {perm}: {json.dumps(df)[:300]}")
         finally:
             env.rm(os.path.dirname(r2.out))
